@@ -139,6 +139,8 @@ def C04(prog: Program, run: Run, tier: str) -> None:
     run.add(_only(specific.rule_exhaust(prog), "roi:"), "R-EXHAUST both tilings implement every RoiTiles member")
     run.add(_only(specific.rule_cast(prog, {"roi", "_blocks"}), "roi:Var", "_blocks"), "R-CAST")
     run.add(_fwd(prog, {"roi", "_blocks"}), FWD_DESC)
+    run.add(extra.tiles_geobox_consistency(prog) + extra.locate_siblings(prog),
+            "R-GUARDSEQ a tile's geobox is the base cropped to the tiling's region of the same index, derived GeoboxTiles crop geobox and tiling by the same region; R-SIBLING both locate() reject the same out-of-range pixels")
     run.add(extra.block_assembler(prog), "R-GUARDSEQ BlockAssembler indexes the request-relative window with full slices on non-spatial axes; reads each block through its own part of the 3-way intersection and writes through the window's part into a fill-initialised window")
     run.floor("R-API|", 20)
     run.floor("R-AXIS|", 25)
